@@ -21,6 +21,7 @@ end
 theorem sim_opUpdr {w : World} (hw : w.Good) (a : Args) : Sim (HS.opUpdr w.norm a) (HS.opUpdr w a) := by
   unfold HS.opUpdr
   refine sim_withMap hw fun n m hn hget hok hsrc => ?_
+  try dsimp +instances only [World.norm_mocs, World.norm_hpfiles, World.norm_metas]
   rcases m.packed_cases hok.2.1 with hp | ⟨co, so, st, cache, view, rfl⟩
   · try simp +instances only [MapObj.norm_of_ne hp]
     sim_walk0
@@ -33,6 +34,7 @@ theorem sim_opUpdr {w : World} (hw : w.Good) (a : Args) : Sim (HS.opUpdr w.norm 
 theorem sim_opSop {w : World} (hw : w.Good) (a : Args) : Sim (HS.opSop w.norm a) (HS.opSop w a) := by
   unfold HS.opSop
   refine sim_withMap hw fun n m hn hget hok hsrc => ?_
+  try dsimp +instances only [World.norm_mocs, World.norm_hpfiles, World.norm_metas]
   rcases m.packed_cases hok.2.1 with hp | ⟨co, so, st, cache, view, rfl⟩
   · try simp +instances only [MapObj.norm_of_ne hp]
     sim_walk0
@@ -45,6 +47,7 @@ theorem sim_opSop {w : World} (hw : w.Good) (a : Args) : Sim (HS.opSop w.norm a)
 theorem sim_opAstype {w : World} (hw : w.Good) (a : Args) : Sim (HS.opAstype w.norm a) (HS.opAstype w a) := by
   unfold HS.opAstype
   refine sim_withMap hw fun n m hn hget hok hsrc => ?_
+  try dsimp +instances only [World.norm_mocs, World.norm_hpfiles, World.norm_metas]
   rcases m.packed_cases hok.2.1 with hp | ⟨co, so, st, cache, view, rfl⟩
   · try simp +instances only [MapObj.norm_of_ne hp]
     sim_walk0
@@ -57,6 +60,7 @@ theorem sim_opAstype {w : World} (hw : w.Good) (a : Args) : Sim (HS.opAstype w.n
 theorem sim_opInv {w : World} (hw : w.Good) (a : Args) : Sim (HS.opInv w.norm a) (HS.opInv w a) := by
   unfold HS.opInv
   refine sim_withMap hw fun n m hn hget hok hsrc => ?_
+  try dsimp +instances only [World.norm_mocs, World.norm_hpfiles, World.norm_metas]
   rcases m.packed_cases hok.2.1 with hp | ⟨co, so, st, cache, view, rfl⟩
   · try simp +instances only [MapObj.norm_of_ne hp]
     sim_walk0
@@ -69,6 +73,7 @@ theorem sim_opInv {w : World} (hw : w.Good) (a : Args) : Sim (HS.opInv w.norm a)
 theorem sim_opBits {w : World} (hw : w.Good) (a : Args) : Sim (HS.opBits w.norm a) (HS.opBits w a) := by
   unfold HS.opBits
   refine sim_withMap hw fun n m hn hget hok hsrc => ?_
+  try dsimp +instances only [World.norm_mocs, World.norm_hpfiles, World.norm_metas]
   rcases m.packed_cases hok.2.1 with hp | ⟨co, so, st, cache, view, rfl⟩
   · try simp +instances only [MapObj.norm_of_ne hp]
     sim_walk0
@@ -81,6 +86,7 @@ theorem sim_opBits {w : World} (hw : w.Good) (a : Args) : Sim (HS.opBits w.norm 
 theorem sim_opChk {w : World} (hw : w.Good) (a : Args) : Sim (HS.opChk w.norm a) (HS.opChk w a) := by
   unfold HS.opChk
   refine sim_withMap hw fun n m hn hget hok hsrc => ?_
+  try dsimp +instances only [World.norm_mocs, World.norm_hpfiles, World.norm_metas]
   rcases m.packed_cases hok.2.1 with hp | ⟨co, so, st, cache, view, rfl⟩
   · try simp +instances only [MapObj.norm_of_ne hp]
     sim_walk0
@@ -93,6 +99,7 @@ theorem sim_opChk {w : World} (hw : w.Good) (a : Args) : Sim (HS.opChk w.norm a)
 theorem sim_opCopy {w : World} (hw : w.Good) (a : Args) : Sim (HS.opCopy w.norm a) (HS.opCopy w a) := by
   unfold HS.opCopy
   refine sim_withMap hw fun n m hn hget hok hsrc => ?_
+  try dsimp +instances only [World.norm_mocs, World.norm_hpfiles, World.norm_metas]
   rcases m.packed_cases hok.2.1 with hp | ⟨co, so, st, cache, view, rfl⟩
   · try simp +instances only [MapObj.norm_of_ne hp]
     sim_walk0
@@ -105,6 +112,7 @@ theorem sim_opCopy {w : World} (hw : w.Good) (a : Args) : Sim (HS.opCopy w.norm 
 theorem sim_opScov {w : World} (hw : w.Good) (a : Args) : Sim (HS.opScov w.norm a) (HS.opScov w a) := by
   unfold HS.opScov
   refine sim_withMap hw fun n m hn hget hok hsrc => ?_
+  try dsimp +instances only [World.norm_mocs, World.norm_hpfiles, World.norm_metas]
   rcases m.packed_cases hok.2.1 with hp | ⟨co, so, st, cache, view, rfl⟩
   · try simp +instances only [MapObj.norm_of_ne hp]
     sim_walk0
@@ -117,6 +125,7 @@ theorem sim_opScov {w : World} (hw : w.Good) (a : Args) : Sim (HS.opScov w.norm 
 theorem sim_opMeta {w : World} (hw : w.Good) (a : Args) : Sim (HS.opMeta w.norm a) (HS.opMeta w a) := by
   unfold HS.opMeta
   refine sim_withMap hw fun n m hn hget hok hsrc => ?_
+  try dsimp +instances only [World.norm_mocs, World.norm_hpfiles, World.norm_metas]
   rcases m.packed_cases hok.2.1 with hp | ⟨co, so, st, cache, view, rfl⟩
   · try simp +instances only [MapObj.norm_of_ne hp]
     sim_walk0
@@ -129,6 +138,7 @@ theorem sim_opMeta {w : World} (hw : w.Good) (a : Args) : Sim (HS.opMeta w.norm 
 theorem sim_opGetmeta {w : World} (hw : w.Good) (a : Args) : Sim (HS.opGetmeta w.norm a) (HS.opGetmeta w a) := by
   unfold HS.opGetmeta
   refine sim_withMap hw fun n m hn hget hok hsrc => ?_
+  try dsimp +instances only [World.norm_mocs, World.norm_hpfiles, World.norm_metas]
   rcases m.packed_cases hok.2.1 with hp | ⟨co, so, st, cache, view, rfl⟩
   · try simp +instances only [MapObj.norm_of_ne hp]
     sim_walk0
@@ -141,6 +151,7 @@ theorem sim_opGetmeta {w : World} (hw : w.Good) (a : Args) : Sim (HS.opGetmeta w
 theorem sim_opWrite {w : World} (hw : w.Good) (a : Args) : Sim (HS.opWrite w.norm a) (HS.opWrite w a) := by
   unfold HS.opWrite
   refine sim_withMap hw fun n m hn hget hok hsrc => ?_
+  try dsimp +instances only [World.norm_mocs, World.norm_hpfiles, World.norm_metas]
   rcases m.packed_cases hok.2.1 with hp | ⟨co, so, st, cache, view, rfl⟩
   · try simp +instances only [MapObj.norm_of_ne hp]
     sim_walk0
@@ -153,6 +164,7 @@ theorem sim_opWrite {w : World} (hw : w.Good) (a : Args) : Sim (HS.opWrite w.nor
 theorem sim_opInterp {w : World} (hw : w.Good) (a : Args) : Sim (HS.opInterp w.norm a) (HS.opInterp w a) := by
   unfold HS.opInterp
   refine sim_withMap hw fun n m hn hget hok hsrc => ?_
+  try dsimp +instances only [World.norm_mocs, World.norm_hpfiles, World.norm_metas]
   rcases m.packed_cases hok.2.1 with hp | ⟨co, so, st, cache, view, rfl⟩
   · try simp +instances only [MapObj.norm_of_ne hp]
     sim_walk0
@@ -165,6 +177,7 @@ theorem sim_opInterp {w : World} (hw : w.Good) (a : Args) : Sim (HS.opInterp w.n
 theorem sim_opHpxwrite {w : World} (hw : w.Good) (a : Args) : Sim (HS.opHpxwrite w.norm a) (HS.opHpxwrite w a) := by
   unfold HS.opHpxwrite
   refine sim_withMap hw fun n m hn hget hok hsrc => ?_
+  try dsimp +instances only [World.norm_mocs, World.norm_hpfiles, World.norm_metas]
   rcases m.packed_cases hok.2.1 with hp | ⟨co, so, st, cache, view, rfl⟩
   · try simp +instances only [MapObj.norm_of_ne hp]
     sim_walk0
@@ -177,6 +190,7 @@ theorem sim_opHpxwrite {w : World} (hw : w.Good) (a : Args) : Sim (HS.opHpxwrite
 theorem sim_opSet {w : World} (hw : w.Good) (a : Args) : Sim (HS.opSet w.norm a) (HS.opSet w a) := by
   unfold HS.opSet
   refine sim_withMap hw fun n m hn hget hok hsrc => ?_
+  try dsimp +instances only [World.norm_mocs, World.norm_hpfiles, World.norm_metas]
   rcases m.packed_cases hok.2.1 with hp | ⟨co, so, st, cache, view, rfl⟩
   · try simp +instances only [MapObj.norm_of_ne hp]
     sim_walk0
@@ -189,6 +203,7 @@ theorem sim_opSet {w : World} (hw : w.Good) (a : Args) : Sim (HS.opSet w.norm a)
 theorem sim_opVals {w : World} (hw : w.Good) (a : Args) : Sim (HS.opVals w.norm a) (HS.opVals w a) := by
   unfold HS.opVals
   refine sim_withMap hw fun n m hn hget hok hsrc => ?_
+  try dsimp +instances only [World.norm_mocs, World.norm_hpfiles, World.norm_metas]
   rcases m.packed_cases hok.2.1 with hp | ⟨co, so, st, cache, view, rfl⟩
   · try simp +instances only [MapObj.norm_of_ne hp]
     sim_walk0
@@ -201,6 +216,7 @@ theorem sim_opVals {w : World} (hw : w.Good) (a : Args) : Sim (HS.opVals w.norm 
 theorem sim_opGet {w : World} (hw : w.Good) (a : Args) : Sim (HS.opGet w.norm a) (HS.opGet w a) := by
   unfold HS.opGet
   refine sim_withMap hw fun n m hn hget hok hsrc => ?_
+  try dsimp +instances only [World.norm_mocs, World.norm_hpfiles, World.norm_metas]
   rcases m.packed_cases hok.2.1 with hp | ⟨co, so, st, cache, view, rfl⟩
   · try simp +instances only [MapObj.norm_of_ne hp]
     sim_walk0
@@ -213,6 +229,7 @@ theorem sim_opGet {w : World} (hw : w.Good) (a : Args) : Sim (HS.opGet w.norm a)
 theorem sim_opValid {w : World} (hw : w.Good) (a : Args) : Sim (HS.opValid w.norm a) (HS.opValid w a) := by
   unfold HS.opValid
   refine sim_withMap hw fun n m hn hget hok hsrc => ?_
+  try dsimp +instances only [World.norm_mocs, World.norm_hpfiles, World.norm_metas]
   rcases m.packed_cases hok.2.1 with hp | ⟨co, so, st, cache, view, rfl⟩
   · try simp +instances only [MapObj.norm_of_ne hp]
     sim_walk0
@@ -225,6 +242,7 @@ theorem sim_opValid {w : World} (hw : w.Good) (a : Args) : Sim (HS.opValid w.nor
 theorem sim_opCovmap {w : World} (hw : w.Good) (a : Args) : Sim (HS.opCovmap w.norm a) (HS.opCovmap w a) := by
   unfold HS.opCovmap
   refine sim_withMap hw fun n m hn hget hok hsrc => ?_
+  try dsimp +instances only [World.norm_mocs, World.norm_hpfiles, World.norm_metas]
   rcases m.packed_cases hok.2.1 with hp | ⟨co, so, st, cache, view, rfl⟩
   · try simp +instances only [MapObj.norm_of_ne hp]
     sim_walk0
@@ -237,6 +255,7 @@ theorem sim_opCovmap {w : World} (hw : w.Good) (a : Args) : Sim (HS.opCovmap w.n
 theorem sim_opVpsc {w : World} (hw : w.Good) (a : Args) : Sim (HS.opVpsc w.norm a) (HS.opVpsc w a) := by
   unfold HS.opVpsc
   refine sim_withMap hw fun n m hn hget hok hsrc => ?_
+  try dsimp +instances only [World.norm_mocs, World.norm_hpfiles, World.norm_metas]
   rcases m.packed_cases hok.2.1 with hp | ⟨co, so, st, cache, view, rfl⟩
   · try simp +instances only [MapObj.norm_of_ne hp]
     sim_walk0
@@ -249,6 +268,7 @@ theorem sim_opVpsc {w : World} (hw : w.Good) (a : Args) : Sim (HS.opVpsc w.norm 
 theorem sim_opFracdet {w : World} (hw : w.Good) (a : Args) : Sim (HS.opFracdet w.norm a) (HS.opFracdet w a) := by
   unfold HS.opFracdet
   refine sim_withMap hw fun n m hn hget hok hsrc => ?_
+  try dsimp +instances only [World.norm_mocs, World.norm_hpfiles, World.norm_metas]
   rcases m.packed_cases hok.2.1 with hp | ⟨co, so, st, cache, view, rfl⟩
   · try simp +instances only [MapObj.norm_of_ne hp]
     sim_walk0
@@ -261,6 +281,7 @@ theorem sim_opFracdet {w : World} (hw : w.Good) (a : Args) : Sim (HS.opFracdet w
 theorem sim_opCovmask {w : World} (hw : w.Good) (a : Args) : Sim (HS.opCovmask w.norm a) (HS.opCovmask w a) := by
   unfold HS.opCovmask
   refine sim_withMap hw fun n m hn hget hok hsrc => ?_
+  try dsimp +instances only [World.norm_mocs, World.norm_hpfiles, World.norm_metas]
   rcases m.packed_cases hok.2.1 with hp | ⟨co, so, st, cache, view, rfl⟩
   · try simp +instances only [MapObj.norm_of_ne hp]
     sim_walk0
@@ -273,6 +294,7 @@ theorem sim_opCovmask {w : World} (hw : w.Good) (a : Args) : Sim (HS.opCovmask w
 theorem sim_opDump {w : World} (hw : w.Good) (a : Args) : Sim (HS.opDump w.norm a) (HS.opDump w a) := by
   unfold HS.opDump
   refine sim_withMap hw fun n m hn hget hok hsrc => ?_
+  try dsimp +instances only [World.norm_mocs, World.norm_hpfiles, World.norm_metas]
   rcases m.packed_cases hok.2.1 with hp | ⟨co, so, st, cache, view, rfl⟩
   · try simp +instances only [MapObj.norm_of_ne hp]
     sim_walk0
@@ -285,6 +307,7 @@ theorem sim_opDump {w : World} (hw : w.Good) (a : Args) : Sim (HS.opDump w.norm 
 theorem sim_opState {w : World} (hw : w.Good) (a : Args) : Sim (HS.opState w.norm a) (HS.opState w a) := by
   unfold HS.opState
   refine sim_withMap hw fun n m hn hget hok hsrc => ?_
+  try dsimp +instances only [World.norm_mocs, World.norm_hpfiles, World.norm_metas]
   rcases m.packed_cases hok.2.1 with hp | ⟨co, so, st, cache, view, rfl⟩
   · try simp +instances only [MapObj.norm_of_ne hp]
     sim_walk0
@@ -297,6 +320,7 @@ theorem sim_opState {w : World} (hw : w.Good) (a : Args) : Sim (HS.opState w.nor
 theorem sim_opBad {w : World} (hw : w.Good) (a : Args) : Sim (HS.opBad w.norm a) (HS.opBad w a) := by
   unfold HS.opBad
   refine sim_withMap hw fun n m hn hget hok hsrc => ?_
+  try dsimp +instances only [World.norm_mocs, World.norm_hpfiles, World.norm_metas]
   rcases m.packed_cases hok.2.1 with hp | ⟨co, so, st, cache, view, rfl⟩
   · try simp +instances only [MapObj.norm_of_ne hp]
     sim_walk0
@@ -309,6 +333,7 @@ theorem sim_opBad {w : World} (hw : w.Good) (a : Args) : Sim (HS.opBad w.norm a)
 theorem sim_opSingle {w : World} (hw : w.Good) (a : Args) : Sim (HS.opSingle w.norm a) (HS.opSingle w a) := by
   unfold HS.opSingle
   refine sim_withMap hw fun n m hn hget hok hsrc => ?_
+  try dsimp +instances only [World.norm_mocs, World.norm_hpfiles, World.norm_metas]
   rcases m.packed_cases hok.2.1 with hp | ⟨co, so, st, cache, view, rfl⟩
   · try simp +instances only [MapObj.norm_of_ne hp]
     sim_walk0
@@ -321,6 +346,7 @@ theorem sim_opSingle {w : World} (hw : w.Good) (a : Args) : Sim (HS.opSingle w.n
 theorem sim_opMoc {w : World} (hw : w.Good) (a : Args) : Sim (HS.opMoc w.norm a) (HS.opMoc w a) := by
   unfold HS.opMoc
   refine sim_withMap hw fun n m hn hget hok hsrc => ?_
+  try dsimp +instances only [World.norm_mocs, World.norm_hpfiles, World.norm_metas]
   rcases m.packed_cases hok.2.1 with hp | ⟨co, so, st, cache, view, rfl⟩
   · try simp +instances only [MapObj.norm_of_ne hp]
     sim_walk0
@@ -334,26 +360,32 @@ theorem sim_opMoc {w : World} (hw : w.Good) (a : Args) : Sim (HS.opMoc w.norm a)
 
 theorem sim_opCfg {w : World} (a : Args) : Sim (HS.opCfg w.norm a) (HS.opCfg w a) := by
   unfold HS.opCfg
+  try dsimp +instances only [World.norm_mocs, World.norm_hpfiles, World.norm_metas]
   sim_walk0
 
 theorem sim_opMocread {w : World} (a : Args) : Sim (HS.opMocread w.norm a) (HS.opMocread w a) := by
   unfold HS.opMocread
+  try dsimp +instances only [World.norm_mocs, World.norm_hpfiles, World.norm_metas]
   sim_walk0
 
 theorem sim_opFromhp {w : World} (a : Args) : Sim (HS.opFromhp w.norm a) (HS.opFromhp w a) := by
   unfold HS.opFromhp
+  try dsimp +instances only [World.norm_mocs, World.norm_hpfiles, World.norm_metas]
   sim_walk0
 
 theorem sim_opHpximplicit {w : World} (a : Args) : Sim (HS.opHpximplicit w.norm a) (HS.opHpximplicit w a) := by
   unfold HS.opHpximplicit
+  try dsimp +instances only [World.norm_mocs, World.norm_hpfiles, World.norm_metas]
   sim_walk0
 
 theorem sim_opHpxread {w : World} (a : Args) : Sim (HS.opHpxread w.norm a) (HS.opHpxread w a) := by
   unfold HS.opHpxread
+  try dsimp +instances only [World.norm_mocs, World.norm_hpfiles, World.norm_metas]
   sim_walk0
 
 theorem sim_opRand {w : World} (a : Args) : Sim (HS.opRand w.norm a) (HS.opRand w a) := by
   unfold HS.opRand
+  try dsimp +instances only [World.norm_mocs, World.norm_hpfiles, World.norm_metas]
   sim_walk0
 
 theorem sim_opDrop {w : World} (a : Args) : Sim (HS.opDrop w.norm a) (HS.opDrop w a) := by
@@ -376,6 +408,7 @@ theorem sim_opInfo {w : World} (hw : w.Good) (a : Args) (hex : srcBool w a = fal
     Sim (HS.opInfo w.norm a) (HS.opInfo w a) := by
   unfold HS.opInfo
   refine sim_withMap hw fun n m hn hget hok hsrc => ?_
+  try dsimp +instances only [World.norm_mocs, World.norm_hpfiles, World.norm_metas]
   have hp : m.kind ≠ .packed := Kind.ne_packed_of_isBool (by rw [← hsrc]; exact hex)
   try simp +instances only [MapObj.norm_of_ne hp]
   sim_walk0
@@ -384,6 +417,7 @@ theorem sim_opPack {w : World} (hw : w.Good) (a : Args) (hex : srcBool w a = fal
     Sim (HS.opPack w.norm a) (HS.opPack w a) := by
   unfold HS.opPack
   refine sim_withMap hw fun n m hn hget hok hsrc => ?_
+  try dsimp +instances only [World.norm_mocs, World.norm_hpfiles, World.norm_metas]
   have hp : m.kind ≠ .packed := Kind.ne_packed_of_isBool (by rw [← hsrc]; exact hex)
   try simp +instances only [MapObj.norm_of_ne hp]
   sim_walk0
@@ -392,6 +426,7 @@ theorem sim_opUpg {w : World} (hw : w.Good) (a : Args) (hex : srcBool w a = fals
     Sim (HS.opUpg w.norm a) (HS.opUpg w a) := by
   unfold HS.opUpg
   refine sim_withMap hw fun n m hn hget hok hsrc => ?_
+  try dsimp +instances only [World.norm_mocs, World.norm_hpfiles, World.norm_metas]
   have hp : m.kind ≠ .packed := Kind.ne_packed_of_isBool (by rw [← hsrc]; exact hex)
   try simp +instances only [MapObj.norm_of_ne hp]
   sim_walk0
@@ -401,6 +436,7 @@ theorem sim_opUpd {w : World} (hw : w.Good) (a : Args)
     Sim (HS.opUpd w.norm a) (HS.opUpd w a) := by
   unfold HS.opUpd
   refine sim_withMap hw fun n m hn hget hok hsrc => ?_
+  try dsimp +instances only [World.norm_mocs, World.norm_hpfiles, World.norm_metas]
   rcases m.packed_cases hok.2.1 with hp | ⟨co, so, st, cache, view, rfl⟩
   · simp +instances only [MapObj.norm_of_ne hp]
     sim_walk0
@@ -425,6 +461,7 @@ set_option maxHeartbeats 1000000 in
 theorem sim_opGeom {w : World} (hw : w.Good) (a : Args) : Sim (HS.opGeom w.norm a) (HS.opGeom w a) := by
   unfold HS.opGeom
   refine sim_withMap hw fun n m hn hget hok hsrc => ?_
+  try dsimp +instances only [World.norm_mocs, World.norm_hpfiles, World.norm_metas]
   rcases m.packed_cases hok.2.1 with hp | ⟨co, so, st, cache, view, rfl⟩
   · simp +instances only [MapObj.norm_of_ne hp]
     sim_walk0
